@@ -3852,6 +3852,14 @@ impl<'a> Parser<'a> {
             }
         };
 
+        // Type arguments of a tagged template: tag<T>`...`; the caller parses the template
+        if matches!(
+            self.current.kind,
+            TokenKind::TemplateHead(_) | TokenKind::TemplateNoSub(_)
+        ) {
+            return Ok(Some(callee));
+        }
+
         // Must be followed by ( for a call
         if !self.check(&TokenKind::LParen) {
             // Not a call, restore and return None
